@@ -35,7 +35,10 @@ RULE = ('history = 2-14 generated operations, about two thirds of them update_on
         'and as {$eq: v} - v a scalar (two thirds), an empty / flat / nested sub-document, an array, '
         'or a sub-document with an operator inside - on fields and on dotted paths, _id (scalar and '
         'embedded), _id.k and operator conditions ($gt $in $ne $exists), aimed at existing '
-        'documents about half of the time; a tenth of the filters carry an empty field name (\'\', '
+        'documents about half of the time; one filter condition in twenty is a pair of unrelated '
+        'fields of which one name is the textual beginning of the other (a / ab, a.b / a.b_x, '
+        '_id / _id_id, _id.k / _id.k0, now and then a path below the longer name; either order; '
+        'the `_id` itself stated or left to be generated); a tenth of the filters carry an empty field name (\'\', '
         '\'a.\'), an operator condition below an equality ({b: {}, \'b.k\': {$gt: 1}}, either order) or '
         'an equality below another one (either order, plain and $eq; must raise when nothing '
         'matches) - two times out of three read off a stored document (a path holding a '
@@ -46,7 +49,10 @@ RULE = ('history = 2-14 generated operations, about two thirds of them update_on
         'without upsert whenever something matched (outcome - value or error - and state; for a '
         'bulk: upsert switched off on the requests that find a document when they are reached) '
         'and an independent seed + operator reference (which also says when the '
-        'equality conditions conflict and the call must raise); the witnesses of the repaired '
+        'equality conditions conflict and the call must raise, and that a call that finds nothing '
+        'and whose new document the reference commits to must not raise - unless it is a '
+        'DuplicateKeyError on an `_id` the collection holds / under a further index, or a known '
+        'refusal of the same update on a stored document); the witnesses of the repaired '
         'defects are replayed first; non-trivial = an upsert that '
         'inserted a document whose seed has a dotted path or whose filter has an operator '
         'condition; distinct = by hash of the history')
@@ -63,6 +69,8 @@ known_labels = {e['id'] for e in common.load_known(ID) if e.get('status') == 'kn
 UPD = ('update_one', 'update_many', 'replace_one')
 COUNTS = collections.Counter()      # what the twin oracle saw (reported in the evidence)
 FAM = ('find_one_and_update', 'find_one_and_replace')
+# what goes on after a field's name to name another, unrelated field
+LOOKALIKE_TAILS = ['b', 'c', '_x', '_id', '0', '2', 'B', ' ', '-a']
 
 
 class Gen13(hist.HistGen):
@@ -124,6 +132,30 @@ class Gen13(hist.HistGen):
         r.shuffle(conds)
         return conds
 
+    def lookalikes(self, d):
+        """conditions on a field (top level, below a dotted path, `_id`, below `_id`) and on a
+        sibling whose name merely goes on after that field's name without a dot (now and then
+        with a path below the sibling), in either key order: equalities stated plainly or as
+        {$eq: v}, now and then an operator condition on the shorter name; for `_id` the shorter
+        name is left out half of the time (the new document is given an `_id` all the same)"""
+        r = self.r
+        f1, f2 = r.choice(gen.FIELDS), r.choice(gen.FIELDS)
+        base = r.choice([f1, f1, f1, '_id', '_id', f1 + '.' + f2, f1 + '.' + f2, f1 + '.' + f2,
+                         '_id.' + r.choice(['j', 'k'])])
+        longer = base + r.choice(LOOKALIKE_TAILS)
+        if r.random() < 0.2:
+            longer += '.' + r.choice(gen.FIELDS)
+        conds = [(longer, self.condition(d, longer))]
+        if base == '_id':
+            if r.random() < 0.5:
+                conds.append(('_id', copy.deepcopy(r.choice(self.ids + [50, 51, 'new']))))
+        elif r.random() < 0.85:
+            conds.append((base, self.condition(d, base)))
+        else:
+            conds.append((base, r.choice([{'$gt': 1}, {'$exists': False}, {'$ne': 1}])))
+        r.shuffle(conds)
+        return conds
+
     def filt(self):
         r = self.r
         d = self.some_doc()
@@ -143,9 +175,15 @@ class Gen13(hist.HistGen):
             elif x < 0.6:
                 k = r.choice(gen.FIELDS)
                 f[k] = {'$eq': self.eq_value(d, k)}
-            elif x < 0.78:
+            elif x < 0.73:
                 k = r.choice(gen.FIELDS) + '.' + r.choice(gen.FIELDS + ['0'])
                 f[k] = self.condition(None, k) if r.random() < 0.8 else {'$gt': 1}
+            elif x < 0.78:
+                # two UNRELATED fields of which one name is the textual beginning of the other
+                # (user / user_id, a.b / a.bc, _id / _id_str): neither path leads through the
+                # other, both equalities go into the new document
+                for k, v in self.lookalikes(d):
+                    f[k] = v
             elif x < 0.81:
                 # the empty field name is a field name like any other
                 k = r.choice(['', '', r.choice(gen.FIELDS) + '.', '.' + r.choice(gen.FIELDS)])
@@ -382,6 +420,9 @@ def oracle(history, steps):
             elif up and pre['matches'] > 0:
                 # the call raised although a document matches: so must the call without upsert
                 fails.extend(judge_matched(history, i, st, prev, docs, pre))
+            elif up:
+                # the call raised although nothing matches: only when no document can be inferred
+                fails.extend(judge_refused(history, i, st, prev, docs))
         elif k == 'bulk_write' and any(is_upsert_request(q) for q in st.op[1]):
             fails.extend(judge_bulk(history, i, st))
         prev = docs
@@ -424,6 +465,104 @@ def judge_matched(history, i, st, prev, docs, pre):
                       % (k, st.op[1], pre['matches'], st.out, state_of(st.obs), t.out,
                          state_of(t.obs))))
     return fails
+
+
+def judge_refused(history, i, st, prev, docs):
+    """upsert=True, nothing matches and the call raised.  When the filter's equality conditions
+    describe a document (no condition at or below another one - two names of which one merely
+    begins like the other are two unrelated fields) and the update applies to it - the
+    independent reference commits to the new document -, exactly one document has to be
+    inserted: the refusal is a failure.  A DuplicateKeyError is left to C06 / C08 when the
+    collection has an index besides `_id_` or already holds the new document's `_id`"""
+    k = st.op[0]
+    filt = histcheck.canon_value(st.op[1], st.oids)
+    spec = histcheck.canon_value(st.op[2], st.oids)
+    replace = k in ('replace_one', 'find_one_and_replace')
+    if k in FAM and st.op[3] is not None:
+        # a projection may be refused on its own account (C12)
+        COUNTS['refused_upserts_not_judged:projection'] += 1
+        return []
+    try:
+        exp = expected_new(filt, spec, replace)
+    except (refupdate.Unknown, Conflict):
+        COUNTS['refused_upserts_the_reference_refuses_or_declines'] += 1
+        return []
+    except Exception:  # pylint: disable=broad-except
+        return []
+    err = st.out[1] if len(st.out) > 1 else None
+    if err == 'DuplicateKeyError':
+        indexes = (st.obs.get('indexes') or []) if isinstance(st.obs, dict) else []
+        ids = [exp['_id']] if isinstance(exp, dict) and '_id' in exp else []
+        if isinstance(filt, dict) and '_id' in filt:
+            fid = filt['_id']
+            ids.append(fid['$eq'] if is_opdoc(fid) and set(fid) == {'$eq'} else fid)
+        # (the store compares `_id`s with Python's ==, which identifies true / false with 1 / 0:
+        # the boolnum finding of C01; such a pair counts as the same `_id` here)
+        # (and it keys embedded `_id`s without regard to the order of their fields)
+        same_id = any(refupdate.same_doc(d.get('_id'), x) or
+                      (not isinstance(x, (dict, list)) and not isinstance(d.get('_id'), (dict, list))
+                       and not isinstance(x, histcheck.Fresh) and d.get('_id') == x)
+                      for d in prev for x in ids)
+        if same_id or any(n != '_id_' for n in indexes):
+            COUNTS['refused_upserts_not_judged:duplicate-key'] += 1
+            return []
+    COUNTS['refused_upserts_judged'] += 1
+    label = refusal_class(k, spec, exp) or refused_on_stored(st.op, st.oids, err) or 'upsert-refused'
+    return [(i, label, '%s(upsert=True) filter %r update %r: nothing matches and the '
+             'equality conditions of the filter describe one document - seed + update give %r - '
+             'yet the call raised %s and the collection went from %d to %d documents'
+             % (k, filt, spec, exp, err, len(prev), len(docs)))]
+
+
+def refusal_class(k, spec, exp):
+    """the known finding (known_findings.json) a refusal falls in, by the shape of the call - the
+    same call is refused on a stored document as well, upsert or not:
+    `pop-missing-refused`: $pop names a path the document does not hold (a no-op by the operator's
+    definition; the library raises KeyError);
+    `fam-empty-replacement`: find_one_and_replace with the empty replacement document (the
+    library asks for 'update or remove' by truth value);
+    `pullall-through-scalar-refused`: $pullAll names a path that leads through a value that is
+    neither a document nor an array (nothing to pull from: a no-op; the library raises
+    TypeError)"""
+    if k == 'find_one_and_replace' and spec == {}:
+        return 'fam-empty-replacement'
+    body = spec.get('$pop') if isinstance(spec, dict) else None
+    if isinstance(body, dict) and isinstance(exp, dict) and any(
+            refupdate.get_at(exp, str(p).split('.'))[0] == 'missing' for p in body):
+        return 'pop-missing-refused'
+    body = spec.get('$pullAll') if isinstance(spec, dict) else None
+    if isinstance(body, dict) and isinstance(exp, dict):
+        for p in body:
+            parts = str(p).split('.')
+            for n in range(1, len(parts)):
+                at = refupdate.get_at(exp, parts[:n])
+                if at[0] == 'value' and not isinstance(at[1], (dict, list)):
+                    return 'pullall-through-scalar-refused'
+    return None
+
+
+def refused_on_stored(op, oids, err=None):
+    """`refused-on-stored-too`: the library refuses the same update or replacement, with the same
+    error, on a STORED copy of the document the filter's equalities describe (a twin: that
+    document inserted into an empty collection, then the call without upsert, aimed at it by its
+    `_id`): the refusal is the operator's (C02 states the operators on stored documents), the
+    upsert only passes it on.  A refusal that stems from building the document - the seed, the
+    choice of `_id`, `$setOnInsert` - does not show on the twin and stays a failure here"""
+    try:
+        seed = seed_of(op[1], implied_id=False)[0]
+    except Exception:  # pylint: disable=broad-except
+        return None
+    if '_id' not in seed:
+        seed = dict(seed, _id='twin')
+    op = without_upsert(op)
+    op[1] = {'_id': copy.deepcopy(seed['_id'])}
+    try:
+        t = histcheck.run_history([['insert_one', seed], op], oids)
+    except Exception:  # pylint: disable=broad-except
+        return None
+    if len(t) == 2 and t[0].out[0] == 'val' and t[1].out[0] == 'err' and err in (None, t[1].out[1]):
+        return 'refused-on-stored-too'
+    return None
 
 
 BULK_UPS = ('UpdateOne', 'UpdateMany', 'ReplaceOne')
@@ -474,9 +613,10 @@ def judge_bulk(history, i, st):
     state)"""
     op = st.op
     counts = bulk_match_counts(history, i, op)
+    fails = judge_bulk_refused(i, st, counts)
     hit = [j for j, n in enumerate(counts) if n]
     if not hit:
-        return []
+        return fails
     COUNTS['bulks_with_matched_upserts_compared_with_twin'] += 1
     if any(conflicting_equalities(op[1][j][1]) for j in hit):
         COUNTS['bulks_with_matched_upserts_with_conflicting_equalities'] += 1
@@ -486,12 +626,46 @@ def judge_bulk(history, i, st):
     t = histcheck.run_history(history[:i] + [twin_op], st.oids)[i]
     if renumber_state(state_of(t.obs)) != renumber_state(state_of(st.obs)) or \
             frozen_out(t.out) != frozen_out(st.out):
-        return [(i, 'upsert-differs-when-matched', 'bulk_write %r: the requests %r (upsert=True) '
-                 'find %r documents when they are reached; the bulk gave %r / %r, with upsert=False '
-                 'on those requests it gives %r / %r'
-                 % (op[1], hit, [counts[j] for j in hit], st.out, state_of(st.obs), t.out,
-                    state_of(t.obs)))]
-    return []
+        fails.append((i, 'upsert-differs-when-matched', 'bulk_write %r: the requests %r (upsert=True) '
+                      'find %r documents when they are reached; the bulk gave %r / %r, with upsert=False '
+                      'on those requests it gives %r / %r'
+                      % (op[1], hit, [counts[j] for j in hit], st.out, state_of(st.obs), t.out,
+                         state_of(t.obs))))
+    return fails
+
+
+BULK_AS_CALL = {'UpdateOne': 'update_one', 'UpdateMany': 'update_many', 'ReplaceOne': 'replace_one'}
+
+
+def judge_bulk_refused(i, st, counts):
+    """an upserting request of a bulk that finds nothing when it is reached and whose new document
+    the reference commits to must not be among the bulk's write errors (duplicate keys, code
+    11000, and the known refusals of the same update on a stored document apart)"""
+    fails = []
+    if st.out[0] != 'err' or st.out[1] != 'BulkWriteError' or len(st.out) < 3 or \
+            not isinstance(st.out[2], dict):
+        return fails
+    for we in st.out[2].get('writeErrors') or []:
+        j = we.get('index') if isinstance(we, dict) else None
+        if not isinstance(j, int) or j >= len(counts) or counts[j] != 0 or we.get('code') == 11000:
+            continue
+        q = st.op[1][j]
+        k = BULK_AS_CALL[q[0]]
+        filt = histcheck.canon_value(q[1], st.oids)
+        spec = histcheck.canon_value(q[2], st.oids)
+        try:
+            exp = expected_new(filt, spec, k == 'replace_one')
+        except Exception:  # pylint: disable=broad-except
+            COUNTS['refused_bulk_upserts_the_reference_refuses_or_declines'] += 1
+            continue
+        COUNTS['refused_bulk_upserts_judged'] += 1
+        label = refusal_class(k, spec, exp) or \
+            refused_on_stored([k, q[1], q[2], True], st.oids) or 'upsert-refused'
+        fails.append((i, label, 'bulk_write %r: request %d (%s, upsert=True) finds nothing when it '
+                      'is reached and the equality conditions of its filter describe one document '
+                      '- seed + update give %r - yet the bulk reports a write error for it: %r'
+                      % (st.op[1], j, q[0], exp, st.out[2])))
+    return fails
 
 
 def judge(history, i, st, prev, docs, up, pre):
